@@ -13,6 +13,38 @@
 //!
 //! Where the statement is silent the oracle accepts both behaviours (see `judge_*` for the exact list);
 //! those cases are counted under `lenient:*` outcomes so that the evidence shows how often they occurred.
+//!
+//! # Clause table (statement of C10 → where it is decided)
+//!
+//! `remove_dummy` (engine 1, `remove_case` → `judge_remove`, expected set from `expected_remove`):
+//!
+//! | # | clause | decided in | over |
+//! |---|--------|------------|------|
+//! | R1 | deletes the placeholder-named parameters / fields / methods+constructors / classes without comment and without remaining children | `why()` = `documented_placeholder()` × comment × remaining children, `Judge::remove_entry` arm `(Removed, Some)` ⇒ `*:placeholder-kept:*` | every configuration of `remove_configs`: full product name × comment at four levels, 16/9/12/7 labelled names |
+//! | R2 | deletes *precisely* those (nothing else goes) | `remove_entry` arm `(_, None)` ⇒ `*:removed-despite:*`; `*:invented`; final `out == expected` | same; names that contain / end with / are shorter than a prefix, carry the prefix of *another* level, sit below or beside `net/minecraft/unmapped/`, differ in case, `init` without brackets, absent names |
+//! | R3 | every other entry is returned unchanged | `remove_entry` arm `(_, Some)`: names row and comment equal; key invariant of `mapmodel::from_quill` (descriptor, parameter index); namespaces and the set's own comment | same, with names of the opposite kind in all other namespaces (N = 1..4, chosen index 0..3) |
+//! | R4 | "after filtering": children first, then the parent | bottom-up order of `expected_remove` / `judge_remove` | every parent state × every child state, incl. the sibling sweeps |
+//! | R5 | never removes an entry that still has a retained child | `Why::Child`, `Why::CommentAndChild` ⇒ `*:removed-despite:retained-child` | same |
+//! | R6 | idempotent | second real call in `remove_case` ⇒ `not-idempotent` | every case |
+//! | R7 | "all mapping sets … at every nesting depth": nothing leaks from one entry to its siblings or to the next class | sibling sweeps (`siblings*`: up to 3 fields and 3 methods under one first-namespace name, 2 parameters each), `two-classes*`, `three-classes*`; floors `mixed-siblings:*` | reduced alphabets, see `alpha_siblings`, `alpha_two_classes*`, `alpha_three_classes` |
+//!
+//! `insert_dummy_and_contract_inner_names` (engine 2, `insert_case` → `judge_insert`):
+//!
+//! | # | clause | decided in | over |
+//! |---|--------|------------|------|
+//! | I1 | every removal becomes an edit back to the placeholder: source name (field, method, top-level class) | `Judge::insert_content` ⇒ `*:removal-not-rewritten`, `*:wrong-placeholder`, `*:removal-rewritten-wrongly` | all variants |
+//! | I2 | … `p_<index>` for parameters | same, `param_placeholder()` (digits written out by hand) | indices 0, 1 and the `parameter-index/*` variants: 9/10, 255/256, 65535/65536, 2^32-1/usize::MAX |
+//! | I3 | … simple inner name for inner classes | same, `class_placeholders()` | keys `A$B`, `A$C`, the `class-key/*` variants (`A$1`, `Outer$Mid$Inner`, `$` only in the package, three levels below net/minecraft/unmapped) ; `class-key-undefined/*` (`$A`, `A$`, `A$$B`, `$`): either name accepted |
+//! | I4 | additions of fields and parameters are discarded | `Judge::insert_leaf` ⇒ `*:addition-retained` | all variants |
+//! | I5 | additions of methods and classes left without children are discarded (with children: kept, as additions) | `Judge::insert_parent_present` ⇒ `*:childless-addition-retained`; `insert_parent_absent` ⇒ `*:addition-with-children-dropped` | all variants |
+//! | I6 | drops only nodes that change nothing and have no remaining children | `must_keep_*` ⇒ `*:removal-dropped`, `*:changing-node-dropped`, `*:dropped-with-retained-child`; the diff's own namespace / comment action ⇒ `top-level-changed` | all variants; `top-level-actions` for the diff's own actions |
+//! | I7 | whatever stays is otherwise untouched (a silently wrong answer) | `insert_content` ⇒ `*:name-action-changed`, `*:comment-action-changed`; `*:invented` | all variants; class name actions whose names are inner-class names themselves (`dollar_names`) |
+//! | I8 | idempotent | second real call in `insert_case` ⇒ `not-idempotent` | every case |
+//! | I9 | "all … diffs": nothing leaks from one node to its siblings or to the next class | `siblings/*` (two fields, two fields under one name, two methods under one name, two parameters), `two-classes/*`, `three-classes` (an outer class and its inner classes in one diff) | reduced action alphabets |
+//!
+//! Not decided (the statement is silent): the order of retained entries inside their maps; whether an empty comment
+//! is a comment; whether a change-free childless node must be dropped (it may); whether the comment action of a
+//! childless method/class addition keeps it.
 
 use std::collections::BTreeMap;
 use std::sync::atomic::{AtomicBool, AtomicU64, Ordering};
@@ -116,6 +148,13 @@ const CLASS_NAMES: &[NameOpt] = &[
 	no("net/minecraft/unmapped/xC_1", "contains-prefix-unmapped-package"),
 	no("pkg/Outer$C_1", "ends-with-prefix-inner"),
 	ph("net/minecraft/unmapped/C_1$C_2", "placeholder-inner"),
+	// added by the extension: one symbol per shortcut a maintainer could take in the name test
+	ph("C_1$Real", "placeholder-outer-real-inner"),
+	no("net/minecraft/unmapped/sub/C_1", "unmapped-subpackage"),
+	no("x/net/minecraft/unmapped/C_1", "contains-unmapped-prefix"),
+	no("net/minecraft/C_1", "parent-of-unmapped-package"),
+	no("C", "shorter-than-prefix"),
+	no("f_1", "other-level-prefix"),
 ];
 const FIELD_NAMES: &[NameOpt] = &[
 	ph("f_1", "placeholder"),
@@ -124,6 +163,9 @@ const FIELD_NAMES: &[NameOpt] = &[
 	no("real", "real"),
 	ABSENT,
 	ph("f_", "placeholder-bare-prefix"),
+	no("f", "shorter-than-prefix"),
+	no("m_1", "other-level-prefix"),
+	no("F_1", "other-case"),
 ];
 const METHOD_NAMES: &[NameOpt] = &[
 	ph("m_1", "placeholder"),
@@ -134,6 +176,10 @@ const METHOD_NAMES: &[NameOpt] = &[
 	no("real", "real"),
 	ABSENT,
 	ph("m_", "placeholder-bare-prefix"),
+	no("m", "shorter-than-prefix"),
+	no("f_1", "other-level-prefix"),
+	no("M_1", "other-case"),
+	no("init", "init-without-brackets"),
 ];
 const PARAM_NAMES: &[NameOpt] = &[
 	ph("p_1", "placeholder"),
@@ -141,9 +187,13 @@ const PARAM_NAMES: &[NameOpt] = &[
 	no("real", "real"),
 	ABSENT,
 	ph("p_", "placeholder-bare-prefix"),
+	no("p", "shorter-than-prefix"),
+	no("m_1", "other-level-prefix"),
 ];
+/// the alphabets of DESIGN.md §2 (plus the first extension): the prefix of the extended ones above
+const DESIGN_SIZES: [usize; 4] = [10, 6, 8, 5];
 
-// reduced alphabets for the two-class sweep
+// reduced alphabets for the sweeps with several classes / several siblings per level
 const CLASS_NAMES_2: &[NameOpt] = &[
 	ph("C_1", "placeholder"),
 	ph("net/minecraft/unmapped/C_1", "placeholder-unmapped-package"),
@@ -155,6 +205,9 @@ const CLASS_NAMES_2: &[NameOpt] = &[
 const FIELD_NAMES_2: &[NameOpt] = &[ph("f_1", "placeholder"), no("real", "real")];
 const METHOD_NAMES_2: &[NameOpt] = &[ph("m_1", "placeholder"), ph("<init>", "init"), no("real", "real")];
 const PARAM_NAMES_2: &[NameOpt] = &[ph("p_1", "placeholder"), no("real", "real")];
+const CLASS_NAMES_3: &[NameOpt] = &[ph("C_1", "placeholder"), ph("net/minecraft/unmapped/C_1", "placeholder-unmapped-package"), no("pkg/Real", "real")];
+const CLASS_NAMES_4: &[NameOpt] = &[ph("C_1", "placeholder"), no("pkg/Real", "real")];
+const METHOD_NAMES_4: &[NameOpt] = &[ph("m_1", "placeholder"), no("real", "real")];
 
 #[derive(Clone, Debug)]
 struct Alpha {
@@ -163,7 +216,15 @@ struct Alpha {
 	method: Vec<NameOpt>,
 	param: Vec<NameOpt>,
 	max_params: usize,
+	/// siblings per class (each slot may be empty); siblings share their first-namespace name and differ in the descriptor
+	max_fields: usize,
+	max_methods: usize,
+	/// is the comment dimension (absent / present) explored at [class, field, method, parameter]? otherwise: no comment
+	docs: [bool; 4],
 }
+
+const FIELD_DESCS: [&str; 3] = ["I", "J", "Z"];
+const METHOD_DESCS: [&str; 3] = ["(II)V", "(IJ)V", "(JI)V"];
 
 impl Alpha {
 	fn of(&self, level: Level) -> &[NameOpt] {
@@ -174,20 +235,23 @@ impl Alpha {
 			Level::Param => &self.param,
 		}
 	}
+	fn doc_dim(&self, level: Level) -> u64 {
+		if self.docs[level as usize] { 2 } else { 1 }
+	}
 	fn param_slot(&self) -> u64 {
-		1 + 2 * self.param.len() as u64
+		1 + self.doc_dim(Level::Param) * self.param.len() as u64
 	}
 	fn param_combos(&self) -> u64 {
 		self.param_slot().pow(self.max_params as u32)
 	}
 	fn method_slot(&self) -> u64 {
-		1 + 2 * self.method.len() as u64 * self.param_combos()
+		1 + self.doc_dim(Level::Method) * self.method.len() as u64 * self.param_combos()
 	}
 	fn field_slot(&self) -> u64 {
-		1 + 2 * self.field.len() as u64
+		1 + self.doc_dim(Level::Field) * self.field.len() as u64
 	}
 	fn class_variants(&self) -> u64 {
-		2 * self.class.len() as u64 * self.field_slot() * self.method_slot()
+		self.doc_dim(Level::Class) * self.class.len() as u64 * self.field_slot().pow(self.max_fields as u32) * self.method_slot().pow(self.max_methods as u32)
 	}
 	fn tag(&self, level: Level, name: Option<&str>) -> &'static str {
 		self.of(level).iter().find(|o| o.name == name).map(|o| o.tag).unwrap_or("unlabelled")
@@ -201,6 +265,17 @@ impl Alpha {
 				}
 			}
 		}
+		if self.max_fields > FIELD_DESCS.len() || self.max_methods > METHOD_DESCS.len() {
+			fail("more siblings than descriptors");
+		}
+	}
+	fn describe(&self) -> Value {
+		let names = |a: &[NameOpt]| -> Vec<Value> { a.iter().map(|o| json!(o.name)).collect() };
+		json!({
+			"class_names": names(&self.class), "field_names": names(&self.field), "method_names": names(&self.method), "parameter_names": names(&self.param),
+			"comment_explored_at": {"class": self.docs[0], "field": self.docs[1], "method": self.docs[2], "parameter": self.docs[3]},
+			"fields_per_class": format!("0..{}", self.max_fields), "methods_per_class": format!("0..{}", self.max_methods), "parameters_per_method": format!("0..{}", self.max_params),
+		})
 	}
 }
 
@@ -287,38 +362,46 @@ impl RConfig {
 			*v /= d;
 			r
 		};
-		let m_slot = take(&mut v, a.method_slot());
-		let f_slot = take(&mut v, a.field_slot());
-		let c_doc = take(&mut v, 2) == 1;
+		let m_slots: Vec<u64> = (0..a.max_methods).map(|_| take(&mut v, a.method_slot())).collect();
+		let f_slots: Vec<u64> = (0..a.max_fields).map(|_| take(&mut v, a.field_slot())).collect();
+		let c_doc = take(&mut v, a.doc_dim(Level::Class)) == 1;
 		let c_name = &a.class[take(&mut v, a.class.len() as u64) as usize];
 		let names = self.row(Level::Class, c_name, ord);
 		let key = names[0].clone().unwrap_or_else(|| fail("class without first name"));
 		let mut c = MClass { names, doc: c_doc.then(|| "class comment".to_owned()), ..Default::default() };
-		if f_slot > 0 {
-			let mut s = f_slot - 1;
-			let doc = take(&mut s, 2) == 1;
-			let o = &a.field[s as usize];
-			let names = self.row(Level::Field, o, 0);
-			let k = names[0].clone().unwrap_or_else(|| fail("field without first name"));
-			c.fields.insert((k, "I".into()), MField { names, doc: doc.then(|| "field comment".to_owned()) });
-		}
-		if m_slot > 0 {
-			let mut s = m_slot - 1;
-			let mut params = BTreeMap::new();
-			for index in 0..a.max_params {
-				let p_slot = take(&mut s, a.param_slot());
-				if p_slot > 0 {
-					let mut p = p_slot - 1;
-					let doc = take(&mut p, 2) == 1;
-					let o = &a.param[p as usize];
-					params.insert(index, MParam { names: self.row(Level::Param, o, 0), doc: doc.then(|| "parameter comment".to_owned()) });
+		for (i, f_slot) in f_slots.into_iter().enumerate() {
+			if f_slot > 0 {
+				let mut s = f_slot - 1;
+				let doc = take(&mut s, a.doc_dim(Level::Field)) == 1;
+				let o = &a.field[s as usize];
+				let names = self.row(Level::Field, o, 0);
+				let k = names[0].clone().unwrap_or_else(|| fail("field without first name"));
+				if c.fields.insert((k, FIELD_DESCS[i].into()), MField { names, doc: doc.then(|| "field comment".to_owned()) }).is_some() {
+					fail("generator produced two fields with one key");
 				}
 			}
-			let doc = take(&mut s, 2) == 1;
-			let o = &a.method[s as usize];
-			let names = self.row(Level::Method, o, 0);
-			let k = names[0].clone().unwrap_or_else(|| fail("method without first name"));
-			c.methods.insert((k, "(II)V".into()), MMethod { names, doc: doc.then(|| "method comment".to_owned()), params });
+		}
+		for (i, m_slot) in m_slots.into_iter().enumerate() {
+			if m_slot > 0 {
+				let mut s = m_slot - 1;
+				let mut params = BTreeMap::new();
+				for index in 0..a.max_params {
+					let p_slot = take(&mut s, a.param_slot());
+					if p_slot > 0 {
+						let mut p = p_slot - 1;
+						let doc = take(&mut p, a.doc_dim(Level::Param)) == 1;
+						let o = &a.param[p as usize];
+						params.insert(index, MParam { names: self.row(Level::Param, o, 0), doc: doc.then(|| "parameter comment".to_owned()) });
+					}
+				}
+				let doc = take(&mut s, a.doc_dim(Level::Method)) == 1;
+				let o = &a.method[s as usize];
+				let names = self.row(Level::Method, o, 0);
+				let k = names[0].clone().unwrap_or_else(|| fail("method without first name"));
+				if c.methods.insert((k, METHOD_DESCS[i].into()), MMethod { names, doc: doc.then(|| "method comment".to_owned()), params }).is_some() {
+					fail("generator produced two methods with one key");
+				}
+			}
 		}
 		(key, c)
 	}
@@ -337,12 +420,38 @@ impl RConfig {
 	}
 }
 
+fn alpha_of(class: &[NameOpt], field: &[NameOpt], method: &[NameOpt], param: &[NameOpt], max_params: usize) -> Alpha {
+	Alpha { class: class.to_vec(), field: field.to_vec(), method: method.to_vec(), param: param.to_vec(), max_params, max_fields: 1, max_methods: 1, docs: [true; 4] }
+}
+
+/// the extended alphabets: every labelled symbol
 fn alpha_full(max_params: usize) -> Alpha {
-	Alpha { class: CLASS_NAMES.to_vec(), field: FIELD_NAMES.to_vec(), method: METHOD_NAMES.to_vec(), param: PARAM_NAMES.to_vec(), max_params }
+	alpha_of(CLASS_NAMES, FIELD_NAMES, METHOD_NAMES, PARAM_NAMES, max_params)
+}
+
+/// the alphabets the check had before the extension (a prefix of the extended ones)
+fn alpha_design(max_params: usize) -> Alpha {
+	alpha_of(&CLASS_NAMES[..DESIGN_SIZES[0]], &FIELD_NAMES[..DESIGN_SIZES[1]], &METHOD_NAMES[..DESIGN_SIZES[2]], &PARAM_NAMES[..DESIGN_SIZES[3]], max_params)
 }
 
 fn alpha_two_classes() -> Alpha {
-	Alpha { class: CLASS_NAMES_2.to_vec(), field: FIELD_NAMES_2.to_vec(), method: METHOD_NAMES_2.to_vec(), param: PARAM_NAMES_2.to_vec(), max_params: 1 }
+	alpha_of(CLASS_NAMES_2, FIELD_NAMES_2, METHOD_NAMES_2, PARAM_NAMES_2, 1)
+}
+
+/// two classes, small enough for the quick tier
+fn alpha_two_classes_small() -> Alpha {
+	alpha_of(CLASS_NAMES_3, FIELD_NAMES_2, METHOD_NAMES_4, PARAM_NAMES_2, 1)
+}
+
+/// three classes: comments only at the class
+fn alpha_three_classes(method_and_parameter_comments: bool) -> Alpha {
+	Alpha { docs: [true, false, method_and_parameter_comments, method_and_parameter_comments], ..alpha_of(CLASS_NAMES_4, FIELD_NAMES_2, METHOD_NAMES_4, PARAM_NAMES_2, 1) }
+}
+
+/// one class with up to `fields` fields and `methods` methods of up to `params` parameters each: siblings that share
+/// their first-namespace name, some removed and some retained, in every combination
+fn alpha_siblings(methods: &[NameOpt], fields: usize, n_methods: usize, params: usize) -> Alpha {
+	Alpha { max_fields: fields, max_methods: n_methods, ..alpha_of(CLASS_NAMES_4, FIELD_NAMES_2, methods, PARAM_NAMES_2, params) }
 }
 
 /// chosen namespace = the first one: the name is the key, so class/field/method cannot be absent
@@ -361,15 +470,25 @@ fn remove_configs(tier: Tier) -> Vec<RConfig> {
 	let p = tier.pick(1, 2);
 	push("N=2/ns1/real-keys", 2, 1, KeyStyle::Real, Order::Sorted, alpha_full(p), 1, false);
 	push("N=2/ns1/placeholder-keys", 2, 1, KeyStyle::Placeholder, Order::Reversed, alpha_full(p), 1, true);
-	push("N=2/ns1/inverted-keys", 2, 1, KeyStyle::Inverted, Order::Sorted, alpha_full(2), 1, false);
+	push("N=2/ns1/inverted-keys", 2, 1, KeyStyle::Inverted, Order::Sorted, tier.pick(alpha_design(2), alpha_full(2)), 1, false);
 	push("N=3/ns1/inverted", 3, 1, KeyStyle::Inverted, Order::Reversed, alpha_full(p), 1, false);
 	push("N=3/ns2/inverted", 3, 2, KeyStyle::Inverted, Order::Sorted, alpha_full(p), 1, true);
 	push("N=2/ns0", 2, 0, KeyStyle::Real, Order::Sorted, without_absent_keys(alpha_full(p)), 1, false);
+	// added by the extension
+	push("N=1/ns0", 1, 0, KeyStyle::Real, Order::Reversed, without_absent_keys(alpha_full(1)), 1, true);
+	push("N=4/ns3/inverted", 4, 3, KeyStyle::Inverted, Order::Sorted, alpha_full(1), 1, false);
+	push("siblings/N=2/ns1/inverted", 2, 1, KeyStyle::Inverted, Order::Reversed, alpha_siblings(METHOD_NAMES_4, 2, 2, 2), 1, false);
+	push("two-classes-small/N=2/ns1/real-keys", 2, 1, KeyStyle::Real, Order::Reversed, alpha_two_classes_small(), 2, false);
+	push("three-classes/N=3/ns2/inverted", 3, 2, KeyStyle::Inverted, Order::Rotated(1), alpha_three_classes(false), 3, true);
 	if tier == Tier::Thorough {
 		push("N=3/ns2/placeholder-keys", 3, 2, KeyStyle::Placeholder, Order::Reversed, alpha_full(2), 1, false);
 		push("N=3/ns0", 3, 0, KeyStyle::Real, Order::Reversed, without_absent_keys(alpha_full(2)), 1, true);
 		push("two-classes/N=2/ns1/inverted", 2, 1, KeyStyle::Inverted, Order::Reversed, alpha_two_classes(), 2, false);
 		push("two-classes/N=3/ns2/placeholder-keys", 3, 2, KeyStyle::Placeholder, Order::Sorted, alpha_two_classes(), 2, false);
+		push("N=4/ns1/placeholder-keys", 4, 1, KeyStyle::Placeholder, Order::Reversed, alpha_design(2), 1, true);
+		push("siblings/N=3/ns1/placeholder-keys", 3, 1, KeyStyle::Placeholder, Order::Rotated(1), alpha_siblings(METHOD_NAMES_2, 2, 2, 2), 1, true);
+		push("siblings-three/N=2/ns1/real-keys", 2, 1, KeyStyle::Real, Order::Rotated(2), Alpha { docs: [true, false, true, false], ..alpha_siblings(METHOD_NAMES_4, 3, 3, 2) }, 1, false);
+		push("three-classes/N=2/ns1/placeholder-keys", 2, 1, KeyStyle::Placeholder, Order::Rotated(2), alpha_three_classes(true), 3, false);
 	}
 	out
 }
@@ -388,8 +507,10 @@ fn real_remove_n<const N: usize>(m: &MSet, ns: &str, order: Order) -> Result<Res
 /// `Err(Panic)`; `Ok(Ok(set))`; `Ok(Err(text))` for a refusal or a broken key invariant
 fn real_remove(m: &MSet, ns: &str, order: Order) -> Result<Result<MSet, String>, vcore::Panic> {
 	let r = vcore::guard(|| match m.n() {
+		1 => real_remove_n::<1>(m, ns, order),
 		2 => real_remove_n::<2>(m, ns, order),
 		3 => real_remove_n::<3>(m, ns, order),
+		4 => real_remove_n::<4>(m, ns, order),
 		n => Err(format!("harness: unsupported namespace count {n}")),
 	})?;
 	match r {
@@ -443,6 +564,15 @@ impl Judge<'_> {
 	}
 }
 
+/// the place of an entry, rendered only when a difference is reported
+struct Path<'a>(&'a dyn Fn() -> String);
+
+impl std::fmt::Display for Path<'_> {
+	fn fmt(&self, f: &mut std::fmt::Formatter<'_>) -> std::fmt::Result {
+		f.write_str(&(self.0)())
+	}
+}
+
 struct EntryView<'a> {
 	names: &'a Row,
 	doc: &'a Option<String>,
@@ -450,7 +580,7 @@ struct EntryView<'a> {
 
 impl Judge<'_> {
 	#[allow(clippy::too_many_arguments)]
-	fn remove_entry(&mut self, level: Level, w: Why, tag: &str, path: &str, input: EntryView, actual: Option<EntryView>, parent_gone_as_expected: bool) {
+	fn remove_entry(&mut self, level: Level, w: Why, tag: &str, path: &Path, input: EntryView, actual: Option<EntryView>, parent_gone_as_expected: bool) {
 		let l = level.name();
 		if parent_gone_as_expected {
 			// deleted together with its (rightly deleted) parent; the rules deleted it before the parent
@@ -503,23 +633,25 @@ fn judge_remove(j: &mut Judge, alpha: &Alpha, t: usize, input: &MSet, out: &MSet
 
 		// compare with what the real code returned
 		let oc = out.classes.get(ck);
-		let cpath = format!("class {ck:?}");
+		let cpath_text = || format!("class {ck:?}");
+		let cpath = Path(&cpath_text);
 		j.remove_entry(Level::Class, cw, alpha.tag(Level::Class, c.names[t].as_deref()), &cpath, EntryView { names: &c.names, doc: &c.doc }, oc.map(|o| EntryView { names: &o.names, doc: &o.doc }), false);
 		let class_gone_ok = cw == Why::Removed && oc.is_none();
 		if oc.is_some() || class_gone_ok {
 			for ((fk, f), w) in c.fields.iter().zip(&field_whys) {
 				let of = oc.and_then(|o| o.fields.get(fk));
-				j.remove_entry(Level::Field, *w, alpha.tag(Level::Field, f.names[t].as_deref()), &format!("field {fk:?} of {cpath}"), EntryView { names: &f.names, doc: &f.doc }, of.map(|o| EntryView { names: &o.names, doc: &o.doc }), class_gone_ok);
+				j.remove_entry(Level::Field, *w, alpha.tag(Level::Field, f.names[t].as_deref()), &Path(&|| format!("field {fk:?} of {cpath}")), EntryView { names: &f.names, doc: &f.doc }, of.map(|o| EntryView { names: &o.names, doc: &o.doc }), class_gone_ok);
 			}
 			for ((mk, m), (w, pw)) in c.methods.iter().zip(&method_whys) {
 				let om = oc.and_then(|o| o.methods.get(mk));
-				let mpath = format!("method {mk:?} of {cpath}");
+				let mpath_text = || format!("method {mk:?} of {cpath}");
+				let mpath = Path(&mpath_text);
 				j.remove_entry(Level::Method, *w, alpha.tag(Level::Method, m.names[t].as_deref()), &mpath, EntryView { names: &m.names, doc: &m.doc }, om.map(|o| EntryView { names: &o.names, doc: &o.doc }), class_gone_ok);
 				let method_gone_ok = class_gone_ok || (*w == Why::Removed && om.is_none() && oc.is_some());
 				if om.is_some() || method_gone_ok {
 					for ((pk, p), w) in m.params.iter().zip(pw) {
 						let op = om.and_then(|o| o.params.get(pk));
-						j.remove_entry(Level::Param, *w, alpha.tag(Level::Param, p.names[t].as_deref()), &format!("parameter {pk} of {mpath}"), EntryView { names: &p.names, doc: &p.doc }, op.map(|o| EntryView { names: &o.names, doc: &o.doc }), method_gone_ok);
+						j.remove_entry(Level::Param, *w, alpha.tag(Level::Param, p.names[t].as_deref()), &Path(&|| format!("parameter {pk} of {mpath}")), EntryView { names: &p.names, doc: &p.doc }, op.map(|o| EntryView { names: &o.names, doc: &o.doc }), method_gone_ok);
 					}
 				}
 				if let Some(om) = om {
@@ -581,6 +713,37 @@ fn remove_case(rep: &dyn Report, cfg: &RConfig, idx: u64, st: &mut Stats) {
 	let mut j = Judge { rep, st, engine: "remove_dummy", replay: &replay, reported: false };
 	judge_remove(&mut j, &cfg.alpha, cfg.chosen, &input, &out, &expected);
 	let removed = input.entries() - out.entries().min(input.entries());
+	// vacuity evidence for the sibling sweeps: some entries of one map removed, others of the same map retained
+	if out == expected {
+		fn mixed(st: &mut Stats, level: Level, before: usize, after: usize) {
+			if before >= 2 && after > 0 && after < before {
+				st.outcome(&format!("mixed-siblings:{}", level.name()));
+			}
+		}
+		mixed(st, Level::Class, input.classes.len(), out.classes.len());
+		for (ck, c) in &input.classes {
+			if let Some(oc) = out.classes.get(ck) {
+				mixed(st, Level::Field, c.fields.len(), oc.fields.len());
+				mixed(st, Level::Method, c.methods.len(), oc.methods.len());
+				for (mk, m) in &c.methods {
+					if let Some(om) = oc.methods.get(mk) {
+						mixed(st, Level::Param, m.params.len(), om.params.len());
+					}
+				}
+				// two methods under one name: one removed, one retained
+				for (mk, _) in c.methods.iter().filter(|(mk, _)| !oc.methods.contains_key(*mk)) {
+					if oc.methods.keys().any(|k| k.0 == mk.0) {
+						st.outcome("mixed-siblings:method-sharing-its-name");
+					}
+				}
+				for (fk, _) in c.fields.iter().filter(|(fk, _)| !oc.fields.contains_key(*fk)) {
+					if oc.fields.keys().any(|k| k.0 == fk.0) {
+						st.outcome("mixed-siblings:field-sharing-its-name");
+					}
+				}
+			}
+		}
+	}
 	if out != input {
 		st.outcome("case:something-removed");
 		st.distinct.add(&(cfg.chosen, &input));
@@ -668,29 +831,69 @@ const DA_SMALL: &[DA] = &[DA::None, DA::Add];
 #[derive(Clone, Debug)]
 struct DVariant {
 	label: String,
-	class_key: &'static str,
-	/// hand-labelled: the name a removal of this class has to be edited back to
-	class_placeholder: &'static str,
+	/// (key, hand-labelled name a removal of this class has to be edited back to); all classes have the same shape
+	classes: Vec<(&'static str, &'static str)>,
 	fields: Vec<(&'static str, &'static str)>,
 	methods: Vec<(&'static str, &'static str)>,
-	params: Vec<usize>,
+	/// (index, hand-labelled placeholder)
+	params: Vec<(usize, &'static str)>,
 	na: &'static [NA],
 	da: &'static [DA],
 	order: Order,
+	/// also explore the namespace action × comment action of the diff itself
+	top: bool,
+	/// the names inside the class name actions are inner-class names themselves (they must come out untouched)
+	dollar_names: bool,
 }
 
-/// The source name of a class; for an inner class (`Outer$Inner` in the last `/`-separated part) the simple
-/// inner name — the statement's "(source name, p_<index>, simple inner name)".
-fn class_placeholder(key: &str) -> String {
+const TOP_INFO: &[NA] = &[NA::None, NA::Add, NA::Remove, NA::Edit];
+const TOP_DOC: &[DA] = &[DA::None, DA::Add, DA::Remove, DA::Edit];
+
+/// The names a removal of the class `key` may be edited back to. The statement: "source name", for an inner class the
+/// "simple inner name". Where the key clearly is a top-level name (no `$` in its last `/`-separated part) or clearly an
+/// inner name (`Outer$Inner` with both parts non-empty and no `$$`) there is one answer. For the shapes the statement is
+/// silent about (`$A`, `A$`, `A$$B`) the source name and whatever follows the last `$` are both accepted.
+fn class_placeholders(key: &str) -> Vec<String> {
 	let last = key.rsplit('/').next().unwrap_or(key);
 	match last.rfind('$') {
-		Some(i) if i > 0 && i + 1 < last.len() => last[i + 1..].to_owned(),
-		_ => key.to_owned(),
+		None => vec![key.to_owned()],
+		Some(i) => {
+			let (outer, inner) = (&last[..i], &last[i + 1..]);
+			if !outer.is_empty() && !inner.is_empty() && !outer.ends_with('$') {
+				vec![inner.to_owned()]
+			} else {
+				let mut v = vec![key.to_owned()];
+				if !inner.is_empty() {
+					v.push(inner.to_owned());
+				}
+				v
+			}
+		},
 	}
 }
 
+fn class_key_is_ambiguous(key: &str) -> bool {
+	class_placeholders(key).len() > 1 || (key.rsplit('/').next().unwrap_or(key).contains('$') && class_placeholders(key)[0] == key)
+}
+
+/// the first (for unambiguous keys: the only) accepted placeholder
+fn class_placeholder(key: &str) -> String {
+	class_placeholders(key).swap_remove(0)
+}
+
+/// `p_<index>`, the index in decimal — written out digit by digit, independent of the formatting machinery the code uses
 fn param_placeholder(index: usize) -> String {
-	format!("p_{index}")
+	let mut digits = Vec::new();
+	let mut n = index;
+	loop {
+		digits.push(b'0' + (n % 10) as u8);
+		n /= 10;
+		if n == 0 {
+			break;
+		}
+	}
+	digits.reverse();
+	format!("p_{}", String::from_utf8(digits).unwrap_or_else(|_| fail("digits")))
 }
 
 impl DVariant {
@@ -706,17 +909,37 @@ impl DVariant {
 	fn field_slot(&self) -> u64 {
 		1 + self.node()
 	}
-	fn total(&self) -> u64 {
+	fn class_total(&self) -> u64 {
 		self.node() * self.field_slot().pow(self.fields.len() as u32) * self.method_slot().pow(self.methods.len() as u32)
 	}
+	fn top_total(&self) -> u64 {
+		if self.top { (TOP_INFO.len() * TOP_DOC.len()) as u64 } else { 1 }
+	}
+	fn total(&self) -> u64 {
+		self.class_total().pow(self.classes.len() as u32) * self.top_total()
+	}
 	fn self_check(&self) {
-		if class_placeholder(self.class_key) != self.class_placeholder {
-			fail(&format!("hand label of {:?} disagrees with class_placeholder()", self.class_key));
+		for (key, label) in &self.classes {
+			if class_placeholder(key) != *label {
+				fail(&format!("hand label of {key:?} disagrees with class_placeholder()"));
+			}
+			if class_key_is_ambiguous(key) && self.na.contains(&NA::RemovePlaceholder) {
+				fail(&format!("variant {}: a removal of the placeholder itself needs one definite placeholder, {key:?} has none", self.label));
+			}
+		}
+		for (index, label) in &self.params {
+			if param_placeholder(*index) != *label {
+				fail(&format!("hand label of parameter {index} disagrees with param_placeholder()"));
+			}
+		}
+		if self.classes.is_empty() {
+			fail("variant without class");
 		}
 	}
 
 	fn name_act(&self, level: Level, a: NA, placeholder: &str) -> Act {
 		let (old, new, same) = match level {
+			Level::Class if self.dollar_names => ("o/X$Xi", "n/Y$Yi", "s/S$Si"),
 			Level::Class => ("X", "Y", "S"),
 			Level::Field => ("ofld", "nfld", "sfld"),
 			Level::Method => ("ometh", "nmeth", "smeth"),
@@ -748,7 +971,7 @@ impl DVariant {
 		(self.name_act(level, n, placeholder), self.doc_act(d))
 	}
 
-	fn decode(&self, mut idx: u64) -> MDiff {
+	fn decode_class(&self, mut idx: u64, placeholder: &str) -> DClass {
 		let take = |v: &mut u64, d: u64| -> u64 {
 			let r = *v % d;
 			*v /= d;
@@ -762,10 +985,10 @@ impl DVariant {
 			}
 			let mut s = slot - 1;
 			let mut m = DMethod::default();
-			for index in self.params.iter().rev() {
+			for (index, label) in self.params.iter().rev() {
 				let p_slot = take(&mut s, self.param_slot());
 				if p_slot > 0 {
-					let (info, doc) = self.node_acts(Level::Param, p_slot - 1, &param_placeholder(*index));
+					let (info, doc) = self.node_acts(Level::Param, p_slot - 1, label);
 					m.params.insert(*index, DParam { info, doc });
 				}
 			}
@@ -779,38 +1002,137 @@ impl DVariant {
 				c.fields.insert((name.to_string(), desc.to_string()), DField { info, doc });
 			}
 		}
-		(c.info, c.doc) = self.node_acts(Level::Class, idx, self.class_placeholder);
+		(c.info, c.doc) = self.node_acts(Level::Class, idx, placeholder);
+		c
+	}
+
+	fn decode(&self, mut idx: u64) -> MDiff {
 		let mut d = MDiff::default();
-		d.classes.insert(self.class_key.to_owned(), c);
+		let ct = self.class_total();
+		for (key, placeholder) in self.classes.iter().rev() {
+			d.classes.insert((*key).to_owned(), self.decode_class(idx % ct, placeholder));
+			idx /= ct;
+		}
+		if self.top {
+			let doc = TOP_DOC[(idx % TOP_DOC.len() as u64) as usize];
+			let info = TOP_INFO[(idx / TOP_DOC.len() as u64) as usize];
+			d.doc = self.doc_act(doc);
+			d.info = match info {
+				NA::None => Act::None,
+				NA::Add => Act::Add("named".into()),
+				NA::Remove => Act::Remove("named".into()),
+				_ => Act::Edit("official".into(), "named".into()),
+			};
+		}
 		d
 	}
 }
 
+const NA_NO_PLACEHOLDER: &[NA] = &[NA::None, NA::Add, NA::Remove, NA::Edit, NA::EditSame];
+const NA_TINY: &[NA] = &[NA::None, NA::Add, NA::Remove, NA::RemovePlaceholder];
+const NA_THREE: &[NA] = &[NA::None, NA::Add, NA::Remove];
+const DA_NONE: &[DA] = &[DA::None];
+
 fn insert_variants(tier: Tier) -> Vec<DVariant> {
-	let one = |label: &str, class_key: &'static str, class_placeholder: &'static str, field: (&'static str, &'static str), method: (&'static str, &'static str), param: usize, order: Order| DVariant {
-		label: label.to_owned(), class_key, class_placeholder, fields: vec![field], methods: vec![method], params: vec![param], na: NA_ALL, da: DA_ALL, order,
+	let thorough = tier == Tier::Thorough;
+	let one = |label: &str, class_key: &'static str, class_placeholder: &'static str, field: (&'static str, &'static str), method: (&'static str, &'static str), param: (usize, &'static str), order: Order| DVariant {
+		label: label.to_owned(), classes: vec![(class_key, class_placeholder)], fields: vec![field], methods: vec![method], params: vec![param], na: NA_ALL, da: DA_ALL, order, top: false, dollar_names: class_key.contains('$'),
 	};
 	let mut out = vec![
-		one("top-level", "A", "A", ("f_1", "I"), ("m_1", "(I)V"), 0, Order::Sorted),
-		one("inner", "A$B", "B", ("fld", "I"), ("<init>", "(I)V"), 1, Order::Sorted),
+		one("top-level", "A", "A", ("f_1", "I"), ("m_1", "(I)V"), (0, "p_0"), Order::Sorted),
+		one("inner", "A$B", "B", ("fld", "I"), ("<init>", "(I)V"), (1, "p_1"), Order::Sorted),
 	];
-	if tier == Tier::Thorough {
-		out.push(one("unmapped-inner", "net/minecraft/unmapped/C_1$C_2", "C_2", ("f_2", "LA;"), ("m_2", "(IJ)V"), 3, Order::Reversed));
-		out.push(one("nested-inner", "pkg/Outer$Mid$Inner", "Inner", ("real", "I"), ("<clinit>", "()V"), 10, Order::Sorted));
-		out.push(one("top-level-in-package", "pkg/sub/A", "pkg/sub/A", ("f_1", "I"), ("meth", "(I)V"), 255, Order::Sorted));
-		out.push(one("package-with-dollar", "p$q/A", "p$q/A", ("f_1", "I"), ("m_1", "(I)V"), 2, Order::Sorted));
+	if thorough {
+		out.push(one("unmapped-inner", "net/minecraft/unmapped/C_1$C_2", "C_2", ("f_2", "LA;"), ("m_2", "(IJ)V"), (3, "p_3"), Order::Reversed));
+		out.push(one("nested-inner", "pkg/Outer$Mid$Inner", "Inner", ("real", "I"), ("<clinit>", "()V"), (10, "p_10"), Order::Sorted));
+		out.push(one("top-level-in-package", "pkg/sub/A", "pkg/sub/A", ("f_1", "I"), ("meth", "(I)V"), (255, "p_255"), Order::Sorted));
+		out.push(one("package-with-dollar", "p$q/A", "p$q/A", ("f_1", "I"), ("m_1", "(I)V"), (2, "p_2"), Order::Sorted));
 	}
 	// siblings: two entries per level over a smaller action alphabet
 	out.push(DVariant {
-		label: "siblings/two-fields-two-params".into(), class_key: "A$C", class_placeholder: "C",
-		fields: vec![("f_1", "I"), ("f_2", "I")], methods: vec![("m_1", "(II)V")], params: vec![0, 1],
-		na: if tier == Tier::Thorough { NA_ALL } else { NA_SMALL }, da: DA_SMALL, order: Order::Reversed,
+		label: "siblings/two-fields-two-params".into(), classes: vec![("A$C", "C")],
+		fields: vec![("f_1", "I"), ("f_2", "I")], methods: vec![("m_1", "(II)V")], params: vec![(0, "p_0"), (1, "p_1")],
+		na: if thorough { NA_ALL } else { NA_SMALL }, da: DA_SMALL, order: Order::Reversed, top: false, dollar_names: false,
 	});
 	out.push(DVariant {
-		label: "siblings/two-methods".into(), class_key: "pkg/B", class_placeholder: "pkg/B",
-		fields: vec![], methods: vec![("m_1", "(I)V"), ("m_1", "(J)V")], params: vec![1],
-		na: if tier == Tier::Thorough { NA_ALL } else { NA_SMALL }, da: DA_SMALL, order: Order::Reversed,
+		label: "siblings/two-methods".into(), classes: vec![("pkg/B", "pkg/B")],
+		fields: vec![], methods: vec![("m_1", "(I)V"), ("m_1", "(J)V")], params: vec![(1, "p_1")],
+		na: if thorough { NA_ALL } else { NA_SMALL }, da: DA_SMALL, order: Order::Reversed, top: false, dollar_names: false,
 	});
+	// ---- added by the extension ----
+	// several classes in one diff (an outer class and its inner classes): nothing may leak from one class to the next
+	out.push(DVariant {
+		label: "two-classes/field-method".into(), classes: vec![("pkg/Out", "pkg/Out"), ("pkg/Out$In", "In")],
+		fields: vec![("f_1", "I")], methods: vec![("m_1", "(I)V")], params: vec![],
+		na: NA_TINY, da: DA_SMALL, order: Order::Sorted, top: false, dollar_names: true,
+	});
+	out.push(DVariant {
+		label: "two-classes/method-parameter".into(), classes: vec![("q/M$N", "N"), ("q/M", "q/M")],
+		fields: vec![], methods: vec![("<init>", "(I)V")], params: vec![(0, "p_0")],
+		na: NA_TINY, da: DA_SMALL, order: Order::Reversed, top: false, dollar_names: false,
+	});
+	out.push(DVariant {
+		label: "three-classes".into(), classes: vec![("r/A", "r/A"), ("r/A$B", "B"), ("r/A$B$C", "C")],
+		fields: vec![("f_1", "I")], methods: vec![("m_1", "()V")], params: vec![],
+		na: NA_TINY, da: DA_NONE, order: Order::Rotated(1), top: false, dollar_names: true,
+	});
+	if thorough {
+		out.push(DVariant {
+			label: "two-classes/full-depth".into(), classes: vec![("u/P$Q", "Q"), ("u/P", "u/P")],
+			fields: vec![("f_1", "I")], methods: vec![("m_1", "(I)V")], params: vec![(2, "p_2")],
+			na: NA_THREE, da: DA_SMALL, order: Order::Reversed, top: false, dollar_names: true,
+		});
+	}
+	// the namespace action and the comment action of the diff itself
+	out.push(DVariant {
+		label: "top-level-actions".into(), classes: vec![("t/A$B", "B")],
+		fields: vec![("f_1", "I")], methods: vec![("m_1", "(I)V")], params: vec![(0, "p_0")],
+		na: if thorough { NA_ALL } else { NA_SMALL }, da: DA_SMALL, order: Order::Sorted, top: true, dollar_names: true,
+	});
+	// fields that share their name (they differ in the descriptor)
+	out.push(DVariant {
+		label: "siblings/two-fields-one-name".into(), classes: vec![("s/F", "s/F")],
+		fields: vec![("f_1", "I"), ("f_1", "J")], methods: vec![], params: vec![],
+		na: NA_ALL, da: DA_ALL, order: Order::Sorted, top: false, dollar_names: false,
+	});
+	// parameter indices around every width a conversion could truncate to, and the digits a non-decimal rendering changes
+	let index_groups: [(&'static str, Vec<(usize, &'static str)>); 4] = [
+		("i/P9", vec![(9, "p_9"), (10, "p_10")]),
+		("i/P255", vec![(255, "p_255"), (256, "p_256")]),
+		("i/P65535", vec![(65535, "p_65535"), (65536, "p_65536")]),
+		("i/Pmax", vec![(4294967295, "p_4294967295"), (usize::MAX, if usize::BITS == 64 { "p_18446744073709551615" } else { "p_4294967295" })]),
+	];
+	for (key, params) in index_groups {
+		if params[0].0 == params[1].0 {
+			continue;
+		}
+		out.push(DVariant {
+			label: format!("parameter-index/{}-{}", params[0].0, params[1].0), classes: vec![(key, key)],
+			fields: vec![], methods: vec![("m_1", "(II)V")], params,
+			na: NA_ALL, da: DA_SMALL, order: Order::Sorted, top: false, dollar_names: false,
+		});
+	}
+	// shapes of the class key: where the inner name starts
+	let definite: &[(&'static str, &'static str)] = &[
+		("k/A$1", "1"), ("k/Outer$Mid$Inner", "Inner"), ("a$b/C", "a$b/C"), ("a$b/C$D", "D"), ("k/sub/deep/A", "k/sub/deep/A"), ("B$C", "C"),
+		("net/minecraft/unmapped/C_3$C_4$C_5", "C_5"), ("k/A_B", "k/A_B"),
+	];
+	for (key, label) in definite {
+		out.push(DVariant {
+			label: format!("class-key/{key}"), classes: vec![(key, label)],
+			fields: vec![("f_1", "I")], methods: vec![], params: vec![],
+			na: NA_ALL, da: DA_SMALL, order: Order::Sorted, top: false, dollar_names: true,
+		});
+	}
+	// … and the shapes the statement does not define an inner name for: everything but the placeholder itself is judged
+	let ambiguous: &[(&'static str, &'static str)] = &[("k/A$", "k/A$"), ("k/$A", "k/$A"), ("$A", "$A"), ("A$", "A$"), ("k/A$$B", "k/A$$B"), ("$", "$")];
+	for (key, label) in ambiguous {
+		out.push(DVariant {
+			label: format!("class-key-undefined/{key}"), classes: vec![(key, label)],
+			fields: vec![("f_1", "I")], methods: vec![], params: vec![],
+			na: NA_NO_PLACEHOLDER, da: DA_SMALL, order: Order::Sorted, top: false, dollar_names: true,
+		});
+	}
 	out
 }
 
@@ -866,7 +1188,8 @@ fn must_keep_class(c: &DClass, key: &str) -> bool {
 
 impl Judge<'_> {
 	/// the node's own name action and comment action in the output
-	fn insert_content(&mut self, level: Level, path: &str, placeholder: &str, inner_class: Option<bool>, info: &Act, doc: &Act, oinfo: &Act, odoc: &Act) {
+	#[allow(clippy::too_many_arguments)]
+	fn insert_content(&mut self, level: Level, path: &Path, placeholder: &str, also_accepted: &[String], inner_class: Option<bool>, info: &Act, doc: &Act, oinfo: &Act, odoc: &Act) {
 		let l = level.name();
 		let kind = match inner_class {
 			Some(true) => ":inner",
@@ -877,6 +1200,8 @@ impl Judge<'_> {
 			match oinfo {
 				Act::Remove(_) => self.diff(&format!("{l}:removal-not-rewritten"), &format!("{path}: removal {info:?} was kept as a removal instead of an edit back to {placeholder:?}")),
 				Act::Edit(x, y) if x == a && y == placeholder => self.tally(&format!("{l}:removal-rewritten{kind}")),
+				// a class key the statement defines no inner name for
+				Act::Edit(x, y) if x == a && also_accepted.contains(y) => self.tally(&format!("lenient:{l}:removal-rewritten:undefined-inner-name")),
 				Act::Edit(x, _) if x == a => self.diff(&format!("{l}:wrong-placeholder{kind}"), &format!("{path}: removal {info:?} became {oinfo:?}, expected an edit back to {placeholder:?}")),
 				_ => self.diff(&format!("{l}:removal-rewritten-wrongly"), &format!("{path}: removal {info:?} became {oinfo:?}, expected Edit({a:?}, {placeholder:?})")),
 			}
@@ -888,7 +1213,7 @@ impl Judge<'_> {
 		}
 	}
 
-	fn insert_leaf(&mut self, level: Level, path: &str, placeholder: &str, info: &Act, doc: &Act, out: Option<(&Act, &Act)>) {
+	fn insert_leaf(&mut self, level: Level, path: &Path, placeholder: &str, info: &Act, doc: &Act, out: Option<(&Act, &Act)>) {
 		let l = level.name();
 		match out {
 			None => {
@@ -906,7 +1231,7 @@ impl Judge<'_> {
 					self.diff(&format!("{l}:addition-retained"), &format!("{path}: addition {info:?} was not discarded"));
 					return;
 				}
-				self.insert_content(level, path, placeholder, None, info, doc, oinfo, odoc);
+				self.insert_content(level, path, placeholder, &[], None, info, doc, oinfo, odoc);
 				if must_keep_leaf(info, doc, placeholder) {
 					self.tally(&format!("{l}:retained"));
 				} else {
@@ -919,9 +1244,9 @@ impl Judge<'_> {
 
 	/// shared by methods and classes; `remaining_children` counts the children present in the output
 	#[allow(clippy::too_many_arguments)]
-	fn insert_parent_present(&mut self, level: Level, path: &str, placeholder: &str, inner_class: Option<bool>, info: &Act, doc: &Act, oinfo: &Act, odoc: &Act, remaining_children: usize) {
+	fn insert_parent_present(&mut self, level: Level, path: &Path, placeholder: &str, also_accepted: &[String], inner_class: Option<bool>, info: &Act, doc: &Act, oinfo: &Act, odoc: &Act, remaining_children: usize) {
 		let l = level.name();
-		self.insert_content(level, path, placeholder, inner_class, info, doc, oinfo, odoc);
+		self.insert_content(level, path, placeholder, also_accepted, inner_class, info, doc, oinfo, odoc);
 		if is_add(info) {
 			if remaining_children > 0 {
 				self.tally(&format!("{l}:addition-with-children-retained"));
@@ -940,7 +1265,7 @@ impl Judge<'_> {
 		}
 	}
 
-	fn insert_parent_absent(&mut self, level: Level, path: &str, info: &Act, doc: &Act, child_must_stay: bool, must_keep: bool) {
+	fn insert_parent_absent(&mut self, level: Level, path: &Path, info: &Act, doc: &Act, child_must_stay: bool, must_keep: bool) {
 		let l = level.name();
 		if must_keep {
 			let what = if child_must_stay {
@@ -962,10 +1287,14 @@ impl Judge<'_> {
 fn judge_insert(j: &mut Judge, input: &MDiff, out: &MDiff) {
 	if out.info != input.info || out.doc != input.doc {
 		j.diff("top-level-changed", "the namespace action or the comment action of the diff itself changed");
+	} else if !input.info.is_none() || !input.doc.is_none() {
+		j.tally("top-level:actions-untouched");
 	}
 	for (ck, c) in &input.classes {
-		let cpath = format!("class {ck:?}");
-		let cph = class_placeholder(ck);
+		let cpath_text = || format!("class {ck:?}");
+		let cpath = Path(&cpath_text);
+		let accepted = class_placeholders(ck);
+		let cph = accepted[0].clone();
 		let inner = cph != *ck;
 		match out.classes.get(ck) {
 			None => {
@@ -975,13 +1304,14 @@ fn judge_insert(j: &mut Judge, input: &MDiff, out: &MDiff) {
 			Some(oc) => {
 				for (fk, f) in &c.fields {
 					let of = oc.fields.get(fk);
-					j.insert_leaf(Level::Field, &format!("field {fk:?} of {cpath}"), &fk.0, &f.info, &f.doc, of.map(|o| (&o.info, &o.doc)));
+					j.insert_leaf(Level::Field, &Path(&|| format!("field {fk:?} of {cpath}")), &fk.0, &f.info, &f.doc, of.map(|o| (&o.info, &o.doc)));
 				}
 				for fk in oc.fields.keys().filter(|k| !c.fields.contains_key(*k)) {
 					j.diff("field:invented", &format!("field {fk:?} of {cpath} is not in the input"));
 				}
 				for (mk, m) in &c.methods {
-					let mpath = format!("method {mk:?} of {cpath}");
+					let mpath_text = || format!("method {mk:?} of {cpath}");
+					let mpath = Path(&mpath_text);
 					match oc.methods.get(mk) {
 						None => {
 							let child_must_stay = m.params.iter().any(|(i, p)| must_keep_leaf(&p.info, &p.doc, &param_placeholder(*i)));
@@ -990,19 +1320,25 @@ fn judge_insert(j: &mut Judge, input: &MDiff, out: &MDiff) {
 						Some(om) => {
 							for (pk, p) in &m.params {
 								let op = om.params.get(pk);
-								j.insert_leaf(Level::Param, &format!("parameter {pk} of {mpath}"), &param_placeholder(*pk), &p.info, &p.doc, op.map(|o| (&o.info, &o.doc)));
+								j.insert_leaf(Level::Param, &Path(&|| format!("parameter {pk} of {mpath}")), &param_placeholder(*pk), &p.info, &p.doc, op.map(|o| (&o.info, &o.doc)));
+								if let (Act::Remove(a), Some(Act::Edit(x, y))) = (&p.info, op.map(|o| &o.info)) {
+									if x == a && *y == param_placeholder(*pk) {
+										let digits = y.len() - 2;
+										j.tally(&format!("parameter:removal-rewritten:index-of-{}-digit{}", if digits >= 10 { "10-or-more".to_owned() } else { digits.to_string() }, if digits == 1 { "" } else { "s" }));
+									}
+								}
 							}
 							for pk in om.params.keys().filter(|k| !m.params.contains_key(*k)) {
 								j.diff("parameter:invented", &format!("parameter {pk} of {mpath} is not in the input"));
 							}
-							j.insert_parent_present(Level::Method, &mpath, &mk.0, None, &m.info, &m.doc, &om.info, &om.doc, om.params.len());
+							j.insert_parent_present(Level::Method, &mpath, &mk.0, &[], None, &m.info, &m.doc, &om.info, &om.doc, om.params.len());
 						},
 					}
 				}
 				for mk in oc.methods.keys().filter(|k| !c.methods.contains_key(*k)) {
 					j.diff("method:invented", &format!("method {mk:?} of {cpath} is not in the input"));
 				}
-				j.insert_parent_present(Level::Class, &cpath, &cph, Some(inner), &c.info, &c.doc, &oc.info, &oc.doc, oc.fields.len() + oc.methods.len());
+				j.insert_parent_present(Level::Class, &cpath, &cph, &accepted[1..], Some(inner), &c.info, &c.doc, &oc.info, &oc.doc, oc.fields.len() + oc.methods.len());
 			},
 		}
 	}
@@ -1038,9 +1374,12 @@ fn insert_case(rep: &dyn Report, v: &DVariant, idx: u64, st: &mut Stats) {
 	let replay = || insert_replay_text(v, idx, &input, &render_diff(&out));
 	let mut j = Judge { rep, st, engine: "insert_dummy", replay: &replay, reported: false };
 	judge_insert(&mut j, &input, &out);
+	if input.classes.len() >= 2 && !out.classes.is_empty() && out.classes.len() < input.classes.len() {
+		st.outcome("several-classes:some-dropped-some-retained");
+	}
 	if out != input {
 		st.outcome("case:diff-rewritten");
-		let c = &input.classes[v.class_key];
+		let c = &input.classes[v.classes[0].0];
 		st.sample(&format!("insert-{}-{}", v.label, c.info.kind()), || json!({"kind": "insert_dummy_and_contract_inner_names", "variant": v.label, "index": idx, "input": mapmodel::diff::print(&input), "output": mapmodel::diff::print(&out)}));
 	} else {
 		st.outcome("case:diff-unchanged");
@@ -1234,10 +1573,12 @@ fn main() {
 	}
 	let variants = insert_variants(ctx.tier);
 	{
-		let mut keys: Vec<&str> = variants.iter().map(|v| v.class_key).collect();
+		// no class key occurs in two variants, so no diff is produced (and counted) by two variants
+		let mut keys: Vec<&str> = variants.iter().flat_map(|v| v.classes.iter().map(|c| c.0)).collect();
+		let n = keys.len();
 		keys.sort();
 		keys.dedup();
-		if keys.len() != variants.len() {
+		if keys.len() != n {
 			fail("two diff variants share a class key");
 		}
 	}
@@ -1249,7 +1590,7 @@ fn main() {
 	let mut rem_bounds = Vec::new();
 	for cfg in &rconfigs {
 		let st = run_remove(ctx, cfg);
-		rem_bounds.push(json!({"config": cfg.label, "namespaces": cfg.n, "chosen_namespace_index": cfg.chosen, "first_namespace_names": format!("{:?}", cfg.keys), "classes": cfg.classes, "max_parameters": cfg.alpha.max_params, "cases": cfg.total(), "real_executions": st.evaluations}));
+		rem_bounds.push(json!({"config": cfg.label, "namespaces": cfg.n, "chosen_namespace_index": cfg.chosen, "first_namespace_names": format!("{:?}", cfg.keys), "insertion_order": format!("{:?}", cfg.order), "classes": cfg.classes, "max_parameters": cfg.alpha.max_params, "alphabet": cfg.alpha.describe(), "cases": cfg.total(), "real_executions": st.evaluations}));
 		rem = rem.merge(st);
 	}
 	// a namespace that does not exist: anything but a panic (the documentation is silent)
@@ -1269,7 +1610,7 @@ fn main() {
 	let mut ins = Stats::new();
 	let mut ins_bounds = Vec::new();
 	for (v, st) in variants.iter().zip(collect_insert_workers(ctx, workers, &variants)) {
-		ins_bounds.push(json!({"variant": v.label, "class_key": v.class_key, "fields": v.fields.len(), "methods": v.methods.len(), "parameter_indices": v.params, "name_actions": format!("{:?}", v.na), "comment_actions": format!("{:?}", v.da), "cases": v.total(), "real_executions": st.evaluations}));
+		ins_bounds.push(json!({"variant": v.label, "class_keys": v.classes.iter().map(|c| c.0).collect::<Vec<_>>(), "fields": v.fields.len(), "methods": v.methods.len(), "parameter_indices": v.params.iter().map(|p| p.0).collect::<Vec<_>>(), "diff_own_actions_explored": v.top, "insertion_order": format!("{:?}", v.order), "name_actions": format!("{:?}", v.na), "comment_actions": format!("{:?}", v.da), "cases": v.total(), "real_executions": st.evaluations}));
 		ins = ins.merge(st);
 	}
 	let ins_nontrivial = ins.get("case:diff-rewritten");
@@ -1306,6 +1647,41 @@ fn main() {
 		ctx.floor(&format!("insert_dummy: {l} addition with children retained"), 1, ins.get(&format!("{l}:addition-with-children-retained")));
 		ctx.floor(&format!("insert_dummy: change-free {l} retained for a child"), 1, ins.get(&format!("{l}:retained-for-child")));
 	}
+	// the spaces added by the extension
+	for (l, tags) in [
+		("class", &["placeholder-outer-real-inner"][..]),
+	] {
+		for t in tags {
+			ctx.floor(&format!("remove_dummy: {l} removed: {t}"), 1, rem.get(&format!("{l}:removed:{t}")));
+		}
+	}
+	for (l, tags) in [
+		("class", &["unmapped-subpackage", "contains-unmapped-prefix", "parent-of-unmapped-package", "shorter-than-prefix", "other-level-prefix", "ends-with-prefix-inner", "contains-prefix-unmapped-package"][..]),
+		("field", &["shorter-than-prefix", "other-level-prefix", "other-case", "ends-with-prefix"][..]),
+		("method", &["shorter-than-prefix", "other-level-prefix", "other-case", "init-without-brackets", "ends-with-prefix"][..]),
+		("parameter", &["shorter-than-prefix", "other-level-prefix"][..]),
+	] {
+		for t in tags {
+			ctx.floor(&format!("remove_dummy: {l} kept because of its name: {t}"), 1, rem.get(&format!("{l}:kept:name-{t}")));
+		}
+	}
+	for l in ["class", "field", "method", "parameter"] {
+		ctx.floor(&format!("remove_dummy: of several {l} entries in one map some removed and some retained"), 100, rem.get(&format!("mixed-siblings:{l}")));
+	}
+	ctx.floor("remove_dummy: of two methods under one name one removed and one retained", 100, rem.get("mixed-siblings:method-sharing-its-name"));
+	ctx.floor("remove_dummy: of two fields under one name one removed and one retained", 100, rem.get("mixed-siblings:field-sharing-its-name"));
+	for cfg in &rconfigs {
+		ctx.floor(&format!("remove_dummy: configuration {} ran completely", cfg.label), cfg.total() * 2, rem_bounds.iter().find(|b| b["config"] == cfg.label.as_str()).and_then(|b| b["real_executions"].as_u64()).unwrap_or(0));
+	}
+	ctx.floor("insert_dummy: diffs with several classes of which some are dropped and some retained", 100, ins.get("several-classes:some-dropped-some-retained"));
+	ctx.floor("insert_dummy: namespace / comment action of the diff itself present and returned untouched", 1000, ins.get("top-level:actions-untouched"));
+	for d in ["1-digit", "2-digits", "3-digits", "5-digits", "10-or-more-digits"] {
+		ctx.floor(&format!("insert_dummy: parameter removal rewritten to p_<index>, index of {d}"), 1, ins.get(&format!("parameter:removal-rewritten:index-of-{d}")));
+	}
+	ctx.floor("insert_dummy: class removal under a key without a defined inner name judged", 1, ins.get("lenient:class:removal-rewritten:undefined-inner-name"));
+	for v in &variants {
+		ctx.floor(&format!("insert_dummy: variant {} ran completely", v.label), v.total() * 2, ins_bounds.iter().find(|b| b["variant"] == v.label.as_str()).and_then(|b| b["real_executions"].as_u64()).unwrap_or(0));
+	}
 	ctx.floor("insert_dummy: diffs rewritten", 1000, ins.get("case:diff-rewritten"));
 	ctx.floor("insert_dummy: diffs returned unchanged", 100, ins.get("case:diff-unchanged"));
 
@@ -1329,10 +1705,11 @@ fn main() {
 		"bounds": {
 			"remove_dummy": {
 				"class_names": alphabet(CLASS_NAMES), "field_names": alphabet(FIELD_NAMES), "method_names": alphabet(METHOD_NAMES), "parameter_names": alphabet(PARAM_NAMES),
-				"comment": ["absent", "present"], "fields_per_class": "0..1", "methods_per_class": "0..1",
+				"comment": ["absent", "present"], "fields_per_class": "0..1 (siblings configurations: 0..3)", "methods_per_class": "0..1 (siblings configurations: 0..3)", "classes": "1 (two-classes / three-classes configurations: 2, 3)", "namespaces": "1..4",
+				"note": "the listed names are the extended alphabets; every configuration lists the alphabet it really uses under 'alphabet'",
 				"configurations": rem_bounds,
 			},
-			"insert_dummy": {"levels": 4, "children_per_level": "0..1 (siblings variants: 0..2)", "variants": ins_bounds},
+			"insert_dummy": {"levels": 4, "children_per_level": "0..1 (siblings variants: 0..2)", "classes_per_diff": "1 (two-classes / three-classes variants: 2, 3)", "variants": ins_bounds},
 		},
 		"remove_dummy": {"evaluations": rem.evaluations, "cases_with_removal": rem.get("case:something-removed"), "distinct_nontrivial": rem.distinct.len()},
 		"insert_dummy": {"evaluations": ins.evaluations, "cases_rewritten": ins.get("case:diff-rewritten"), "distinct_nontrivial": ins_nontrivial, "worker_processes": n_workers},
@@ -1341,6 +1718,7 @@ fn main() {
 		"placeholder = the definition in the documentation of Mappings::remove_dummy (prefix of the whole name, with or without net/minecraft/unmapped/; <init>/<clinit> by equality)",
 		"insert_dummy: a node whose actions change nothing (None or Edit(x, x)) and that has no remaining children may be dropped or kept; a childless method/class addition that carries a comment action may be dropped or kept (the statement does not say whether a comment is a child)",
 		"names, comments and descriptors other than the listed alphabet are not explored",
+		"insert_dummy: for a class key without a defined inner name ($A, A$, A$$B, $) a removal may be edited back to the source name or to what follows the last $",
 		"the order of retained entries inside their maps is not judged",
 	]);
 }
